@@ -4,7 +4,8 @@ namespace vf {
 const char *ntC06 = "non-trivial = history with an accepted indexed call (replace/extend) on a data set of >=2 frames, or an accepted column call; distinct by case text";
 CaseResult runC06(const Case &c, RunCtx &ctx) {
     CaseResult r;
-    Interp in(ctx);
+    Interp in(ctx, "C06");
+    in.allowUndeclaredFrames = true;      // the frame list semantics hold for every data set, also one without declarations
     FrameModelListener L(r, false); in.L = &L;
     in.run(c);
     r.nontrivial = (L.indexed && in.o().data().nbFrames() >= 2) || L.columns;
